@@ -75,6 +75,9 @@ def run_shard(shard, ctx):
             if pos:
                 ext = [["SPARSE", 24, "RW", "first"]] + ext
             run_case({"kind": "vmdk", "extents": ext + [["FLAT", 16, "RW", "last"]]}, ctx)
+        # extent files whose names differ only in letter case (two files on a case-sensitive file system)
+        for k1, k2 in (("FLAT", "FLAT"), ("SPARSE", "FLAT"), ("FLAT", "SESPARSE")):
+            run_case({"kind": "vmdk", "extents": [[k1, 16, "RW", "Data"], [k2, 24, "RW", "data"], ["FLAT", 16, "RW", "DATA"]]}, ctx)
         # flat extents whose guest data starts at a non-zero sector offset inside the file (device-backed extents)
         for start, pos, sectors in itertools.product((1, 8, 4104), (0, 1, 2), (16, 40)):
             ext = [["SPARSE", 24, "RW", "a"], ["FLAT", 24, "RW", "b"]]
